@@ -129,12 +129,12 @@ type heSel struct {
 	classes []int
 	codes   []int
 	any     bool // no arguments: every error
-	plus    bool
 }
 
+// atoiOK: digits only (no sign)
 func atoiOK(s string) (int, bool) {
-	n, err := strconv.Atoi(s)
-	return n, err == nil
+	n, err := strconv.ParseUint(s, 10, 16)
+	return int(n), err == nil
 }
 
 func parseHEArgs(args []string) (heSel, bool) {
@@ -154,9 +154,6 @@ func parseHEArgs(args []string) (heSel, bool) {
 		c, ok := atoiOK(a)
 		if !ok {
 			return sel, false
-		}
-		if a[0] == '+' {
-			sel.plus = true
 		}
 		sel.codes = append(sel.codes, c)
 	}
@@ -207,10 +204,9 @@ func heOrder(blocks [][]heRoute) [][]heRoute {
 	return out
 }
 
-// heExpect: the status the site answers. intended=true reads the Caddyfile as written (a body
-// directive applies iff its block selects the status AND its own path matcher matches);
-// intended=false is what the adapter makes of it (the path matcher is dropped under a status list).
-func heExpect(s, p int, blocks []heBlock, intended bool) (status int, verdict string) {
+// heExpect: the status the site answers, reading the Caddyfile as written: a body directive
+// applies iff its block selects the status AND its own path matcher matches.
+func heExpect(s, p int, blocks []heBlock) (status int, verdict string) {
 	var bl [][]heRoute
 	for _, b := range blocks {
 		sel, ok := parseHEArgs(b.args)
@@ -223,19 +219,9 @@ func heExpect(s, p int, blocks []heBlock, intended bool) (status int, verdict st
 		}
 		bl = append(bl, rs)
 	}
-	for _, rs := range bl {
-		for _, r := range rs {
-			if r.sel.plus {
-				return 0, "unloadable"
-			}
-		}
-	}
 	for _, rs := range heOrder(bl) {
 		for _, r := range rs {
 			pathOK := r.dir.path < 0 || r.dir.path == p
-			if !intended && !r.sel.any {
-				pathOK = true
-			}
 			if r.sel.selects(s) && pathOK {
 				return r.dir.status, "ok"
 			}
@@ -265,8 +251,7 @@ func runHE(line string, f []string) (o core.Outcome) {
 		}
 	}()
 	o.Tags = []string{"op:he"}
-	want, verdict := heExpect(s, p, blocks, true)
-	asBuilt, _ := heExpect(s, p, blocks, false)
+	want, verdict := heExpect(s, p, blocks)
 
 	unsafe := false
 	for _, b := range blocks {
@@ -306,12 +291,7 @@ func runHE(line string, f []string) (o core.Outcome) {
 	if err != nil {
 		o.Impl = "he unloadable"
 		o.Tags = append(o.Tags, "he:unloadable")
-		if verdict != "unloadable" {
-			o.Failures = append(o.Failures, fail("handle-errors:unloadable", "the adapted config does not load: "+err.Error()))
-		} else {
-			o.Failures = append(o.Failures, fail("handle-errors-plus-sign-code-unloadable",
-				"a status code written with a plus sign passes the adapter (strconv.Atoi) but CEL has no unary plus: the adapted config cannot be loaded"))
-		}
+		o.Failures = append(o.Failures, fail("handle-errors:unloadable", "the adapter accepted the Caddyfile but the adapted config does not load: "+err.Error()))
 		return o
 	}
 	srv := v.(*caddyhttp.App).Servers["srv0"]
@@ -377,13 +357,8 @@ func runHE(line string, f []string) (o core.Outcome) {
 	if verdict != "ok" {
 		o.Failures = append(o.Failures, fail("handle-errors:accepted", "the adapter accepts status arguments it should refuse ("+verdict+")"))
 	} else if st != strconv.Itoa(want) {
-		if st == strconv.Itoa(asBuilt) {
-			o.Failures = append(o.Failures, fail("handle-errors-codes-discard-inner-matchers",
-				fmt.Sprintf("inside `handle_errors <codes>` the matcher of a body directive is overwritten by the status expression: error %d on %s is answered with %s, the Caddyfile says %d", s, paths[p], st, want)))
-		} else {
-			o.Failures = append(o.Failures, fail("handle-errors:status",
-				fmt.Sprintf("error %d on %s is answered with %s, the Caddyfile says %d", s, paths[p], st, want)))
-		}
+		o.Failures = append(o.Failures, fail("handle-errors:status",
+			fmt.Sprintf("error %d on %s is answered with %s, the Caddyfile says %d", s, paths[p], st, want)))
 	}
 	return o
 }
